@@ -368,7 +368,7 @@ theorem accounting_arith (cfg cfg' X E : List Path)
 
 /-- *"Over any processed event".* If an event is processed without error, then for every state the
     change in activity equals `evNet`: entries minus exits of that state summed over the transitions
-    the event fires (`evNet_cons`: stale candidates contribute nothing, every other one contributes
+    the event fires (`evNet_cons`: nothing fires once the machine has finished, stale candidates contribute nothing, every other one contributes
     its plan's counts). `TargetsPlain`: every declared transition is target-less or has a plain target. -/
 theorem accounting_event (h : Hooks) (hok : HooksOK h) (fl : Flavor) (m : Machine) (u : UEnv) (ev : Ev)
     (hwf : WF m.root) (hi : InitOK m.root) (ht : TargetsPlain m) (s : St) (hl : Legal m.root s.cfg)
@@ -383,6 +383,7 @@ theorem evNet_cons (h : Hooks) (fl : Flavor) (m : Machine) (ev : Ev) (multi : Bo
     (s : St) (q : Path) :
     evNet h fl m ev multi (c :: cs) s q =
       if s.err.isSome then 0
+      else if finished s.status then 0
       else if multi && !(s.cfg.contains c.src) then evNet h fl m ev multi cs s q
       else
         (((planTransition m s.cfg s.hist c).entries.map (·.path)).count q : Int)
